@@ -206,7 +206,7 @@ def C14_gcGuard (s : State) (pyr : List (Addr × Option (List (Addr × Nat)))) :
 
 /-- the guard does exclude the documented counterexample … -/
 example : C14_gcGuard gcWitness [(1, some [(2, 1), (2, 1)])] = false := by decide
-/-- … and admits the same run with a well-formed pyramid (non-vacuity; the run does write directly). -/
+/-- … and accepts the same run with a well-formed pyramid (non-vacuity; the run does write directly). -/
 example : C14_gcGuard gcWitness [(1, some [(2, 1)])] = true ∧
     (writes po0' gcWitness (.gcEvict [(1, some [(2, 1)])])).length = 2 := by decide
 
